@@ -133,3 +133,10 @@ func symTimeSet(p string) *TimeSet {
 func mkQuote(w *pki, authLen int) *pb.QuoteV4 {
 	return q.Valid("q_", q.Shape{AuthLen: authLen, Chain: w.chainBytes})
 }
+
+func blocksOf(w *pki) []*pem.Block {
+	return []*pem.Block{
+		certBlock("leaf", w.leaf, "CERTIFICATE", false),
+		certBlock("inter", w.inter, "CERTIFICATE", false),
+		certBlock("root", w.root, "CERTIFICATE", false)}
+}
